@@ -334,12 +334,6 @@ def check_iterator_statuses(ctx):
     ti = ctx.fn("ldb_twoiter_set_data_iter", "src/table/two_level_iterator.c")
     sv = need_call(ctx, "T4-iterator-status-read", "twoiter:saverr", ti, "ldb_twoiter_saverr", "a replaced data iterator's error is kept")
     if sv:
-        must_cross_edge_before(ctx, "T4-iterator-status-read", "twoiter:saverr-before-replace", ti,
-                               lambda c, p: truth_of(c, p, "iter->data_iter.iter") is False,
-                               lambda e: is_call(e, "ldb_wrapiter_set"),
-                               "an existing data iterator is replaced only after its status was saved",
-                               reset=None) if False else None
-
         def step(q, e, st, b, i):
             from ..rules import BAD
             if q == BAD:
